@@ -46,6 +46,43 @@ def getitem_spec(k):
     return spec
 
 
+# ---- Array.__init__: every element has its OWN storage --------------------------------------------------------------
+from cohdl import Null, Full  # noqa: E402
+
+
+def init_spec(n, how):
+    def spec(sx, self, *args):
+        real = sx.real_args[0]
+
+        def holds(res):
+            v = real.fields.get("_value")
+            if how == "none":
+                return v is None
+            want = {"null": [Null] * n, "full": [Full] * n, "list": [f"v{i}" for i in range(n - 1)], "array": ["a0", "a1"]}[how]
+            if not isinstance(v, list) or len(v) != len(want):
+                return False
+            if len({id(e) for e in v}) != len(v):
+                return False  # two elements sharing one object: a write through one element view changes the other
+            return all(isinstance(e, SObj) and e.kind is _Elem and e.fields["f_args"] == [w] for e, w in zip(v, want))
+
+        return C.Pred(holds, "one fresh element object per entry, built from the given value, in order")
+
+    return spec
+
+
+con = contract("cohdl._core._array:Array.__init__", PROPS)
+for n in (1, 2, 3):
+    for how in ("none", "null", "full", "list") + (("array",) if n == 3 else ()):
+        def mk_arg(env, n=n, how=how):
+            if how == "array":
+                return SObj(Array, _value=["a0", "a1"], _elemtype_=_Elem, _count_=2)
+            return {"none": None, "null": Null, "full": Full, "list": [f"v{i}" for i in range(n - 1)]}[how]
+
+        c = Case(f"{n}-elements,init-{how}", [Built([], (lambda n: lambda env: SObj(Array, _elemtype_=_Elem, _count_=n))(n), lambda a: "None", lambda a: None), Built([], mk_arg, lambda a: "None", lambda a: None)], init_spec(n, how))
+        c.native = False
+        c.interp_flags = {"class_call_models": {_Elem: lambda it, args, kw: SObj(_Elem, f_fresh=True, f_args=list(args))}}
+        con.cases.append(c)
+
 con = contract("cohdl._core._array:Array.__getitem__", PROPS)
 for k in (None, 0, 1, 2, 3):
     c = Case(f"{'no' if k is None else k}-stored", [arr_shape(k), PyInt("i", None, None, -2, 6)], getitem_spec(k), requires=(lambda kk: lambda env: env["n"] >= kk)(k or 0))
